@@ -258,6 +258,37 @@ example : intern true (some 256) 256 (some 0) = .limitExceeded := by decide
 between the limit test and the append no path leaves the function -/
 theorem no_guard_before_lookup : ∀ r ∈ limits, r.guardBeforeLookup = false := by decide +kernel
 
+/-! ## 5. immediates: counts and literal indexes cut to the width of an operand -/
+
+/-- operands bounded only indirectly; the bound is stated here as data and exercised by the arity
+sweeps of go/props/c20 (`variadic-native-arguments` …), not proved -/
+def indirectlyBounded : List (String × String) :=
+  [("emitter.emitCallNode: int8(numVar)",
+    "number of variadic arguments of a native call (NoVariadicArgs = -1 otherwise): every argument is evaluated into its own register of the callee's frame (prepareCallParameters, predefined branch, newRegister outside enterStack/exitStack), so it is at most maxRegistersCount")]
+
+/-- **every narrowing conversion that feeds an operand is bounded**: by a constant, an enumeration,
+a guarded table, a limit check, a range test, the register limit — or, for a loop count / loop
+index, by the registers each iteration of the loop keeps allocated (at least one: otherwise
+nothing stops the count at 127) — or it is listed in `indirectlyBounded`. -/
+theorem every_immediate_guarded :
+    ∀ m ∈ immediates, (m.guard ≠ "none" ∧ (m.guard = "heldRegs" → 1 ≤ m.held))
+      ∨ m.site ∈ indirectlyBounded.map (·.1) := by decide +kernel
+
+/-- the allow-list has no stale entries -/
+theorem indirectlyBounded_used : ∀ e ∈ indirectlyBounded, e.1 ∈ immediates.map (·.site) := by decide +kernel
+
+/-- a loop that keeps `h ≥ 1` registers of one type per iteration has run at most 127 times when
+`newRegister` raises the limit error, and such a count or index survives the cut to `int8` -/
+theorem held_registers_bound (h n : Nat) (hh : 1 ≤ h) (hn : n * h ≤ maxRegistersCount) :
+    n ≤ 127 ∧ (BitVec.ofNat 8 n).toInt = Int.ofNat n := by
+  have h127 : n ≤ 127 := by
+    have : n ≤ n * h := Nat.le_mul_of_pos_right n hh
+    simp only [maxRegistersCount] at hn
+    omega
+  refine ⟨h127, ?_⟩
+  rw [toInt_of_lt _ (by rw [ofNat_toNat_lt (by omega)]; omega), ofNat_toNat_lt (by omega)]
+example : ∃ m ∈ immediates, m.guard = "heldRegs" ∧ 1 ≤ m.held := by decide +kernel
+
 theorem checkCount_spec (g n : Nat) : checkCount (some g) n = if n ≤ g then .ok n else .limitExceeded := by
   by_cases h : n ≤ g
   · have : ¬ n > g := by omega
